@@ -31,14 +31,15 @@ type resp struct {
 	ID    int  `json:"id"`
 	OK    bool `json:"ok"`
 	Chain bool `json:"chain"`
-	Cerr  bool `json:"cerr"` // the consumer hit by this response returns an error
+	Cerr  bool `json:"cerr"`  // the consumer hit by this response returns an error
 	Empty bool `json:"empty"` // successful response with an empty body
 }
 type prog struct {
-	Pre   int      `json:"pre"`
-	Resps []resp   `json:"resps"`
-	Gor   []string `json:"gor"`
-	At    int      `json:"at"` // live rig: the goroutine sends after this many client responses
+	Pre      int      `json:"pre"`
+	Resps    []resp   `json:"resps"`
+	Gor      []string `json:"gor"`
+	Failover bool     `json:"failover"` // relay: first server drops with its message unanswered
+	At       int      `json:"at"`       // live rig: the goroutine sends after this many client responses
 }
 type schedule struct {
 	Prog  prog     `json:"prog"`
@@ -52,7 +53,7 @@ var chanID, _ = message.ChannelIdentifierFrom("verif:c13")
 
 // consumer records its invocation and optionally sends a follow-up message.
 type consumer struct {
-	tw    *tracefmt.Writer
+	tw   *tracefmt.Writer
 	tag  string
 	conn proxy.LoginPhaseConnection
 	mk   func(tag string) *consumer
